@@ -3,11 +3,11 @@ import LpModel.C01
 open Lp Lp.Interp Lp.C01
 
 /-  Requests
-      c01.eval  <xs> <ys> <xdim> <fdim> <pref> <mul> <M> (<x> <code>)^M
+      c01.eval  <tag> <xs> <ys> <xdim> <fdim> <pref> <mul> <M> (<x> <code>)^M
       c01.evalx (same; the harness forks because the request may stop the process)
           code -1 = Interpolate(x), code k>=0 = Derivative(x,k)
           answer: ok (<value> <interval index>)^M | err
-      c01.eval2 / c01.eval2x  <xs> <ys> <rows> (<row>)^rows <xdim> <ydim> <fdim> <pref> <mul> <M> (<x> <y>)^M
+      c01.eval2 / c01.eval2x  <tag> <xs> <ys> <rows> (<row>)^rows <xdim> <ydim> <fdim> <pref> <mul> <M> (<x> <y>)^M
           answer: ok (<value> <i> <j>)^M | err
 -/
 
@@ -15,12 +15,14 @@ def pQ1 : P (Rat × Int) := do let v ← pRat; let c ← pInt; pure (v, c)
 def pQ2 : P (Rat × Rat) := do let v ← pRat; let w ← pRat; pure (v, w)
 
 def p1D : P (List Rat × List Rat × Rat × Rat × Rat × Rat × List (Rat × Int)) := do
+  let _ ← tok   -- family tag (for the comparator; ignored here)
   let xs ← pRats; let ys ← pRats
   let xdim ← pRat; let fdim ← pRat; let pref ← pRat; let mul ← pRat
   let qs ← pList pQ1
   pure (xs, ys, xdim, fdim, pref, mul, qs)
 
 def p2D : P (List Rat × List Rat × List (List Rat) × Rat × Rat × Rat × Rat × Rat × List (Rat × Rat)) := do
+  let _ ← tok   -- family tag
   let xs ← pRats; let ys ← pRats
   let f ← pList pRats
   let xdim ← pRat; let ydim ← pRat; let fdim ← pRat; let pref ← pRat; let mul ← pRat
